@@ -53,6 +53,12 @@ func (in *nestInst) mk(class string) (v any, stackLike bool) {
 		p1 := &a
 		p2 := &p1
 		return &p2, true
+	case "named-ptr-alias": // a declared pointer type above an alias (type AliasRef *StackAlias): a pointer like any other
+		a := StackAlias(stackage.List().Push(t))
+		return AliasRef(&a), true
+	case "named-ptr-stack":
+		a := stackage.And().Push(t)
+		return StackRef(&a), true
 	case "ptr-alias-var": // a pointer to an alias variable that is still unset: no Stack (yet)
 		a := new(StackAlias)
 		in.vars = append(in.vars, a)
@@ -464,7 +470,7 @@ func c13LongBatches(c *Ctx) int {
 				for i := range vals {
 					vals[i] = fmt.Sprintf("v%d", i)
 				}
-				classes := []string{"stack", "alias", "ptr-alias", "aliasS", "ptr-stack"}
+				classes := []string{"stack", "alias", "ptr-alias", "aliasS", "ptr-stack", "named-ptr-alias", "named-ptr-stack"}
 				in := &nestInst{}
 				for k, p := range at {
 					v, _ := in.mk(classes[(li+k+variant)%len(classes)])
@@ -547,7 +553,7 @@ func c13Configs(c *Ctx) []c13Cfg {
 	}
 	out = append(out, c13Cfg{"OR+decorated", 2, 2, nestClasses, false})
 	out = append(out, c13Cfg{"AND+rejected", 2, 2, []string{"prim", "stack", "alias", "ptr-alias", "cond", "nil"}, false})
-	boxed := []string{"prim", "ptr-iface-stack", "stack", "ptr-iface-ptr-alias"}
+	boxed := []string{"prim", "ptr-iface-stack", "stack", "ptr-iface-ptr-alias", "named-ptr-alias", "named-ptr-stack"} // (boxes, and declared pointer types)
 	out = append(out, c13Cfg{"OR+boxed", 2, 2, boxed, false}, c13Cfg{"CONDITION+boxed", 1, 1, boxed, true})
 	out = append(out, c13Cfg{"LIST+cap2", 2, 3, []string{"prim", "stack", "ptr-alias", "cond"}, false}, c13Cfg{"NOT+cap2", 2, 3, []string{"prim", "alias", "nil"}, false})
 	// pointers to alias variables the caller fills in and empties behind the stack's back
